@@ -73,7 +73,8 @@ def run(ctx):
     # fixed corner shapes first
     for fam, kw in [('cf1d', dict(ny=2, nx=5)), ('cf1d', dict(ny=5, nx=2)), ('cf2d', dict(ny=1, nx=4)),
                     ('cf2d', dict(ny=4, nx=1)), ('shoc_simple', dict(ny=3, nx=3)), ('shoc_standard', dict(nj=1, ni=3)),
-                    ('shoc_standard', dict(nj=3, ni=1)), ('ugrid', dict(w=1, h=1)), ('ugrid', dict(w=3, h=2))]:
+                    ('shoc_standard', dict(nj=3, ni=1)), ('ugrid', dict(w=1, h=1)), ('ugrid', dict(w=3, h=2)),
+                    ('cf1d', dict(ny=3, nx=12, global_lon=True, bounds=False)), ('cf1d', dict(ny=2, nx=8, global_lon=True, bounds=True))]:
         datasets.append(gen.any_dataset(rng, fam, **kw))
     while len(datasets) < n_ds:
         datasets.append(gen.any_dataset(rng))
@@ -166,6 +167,19 @@ def run(ctx):
                     if back != ('ok', lin):
                         bad = bad or f'ravel_index(wind_index({lin})) = {back}'
                     seen.add(tuple(w.v[1]))
+            # the older spelling of wind_index and the default grid kind left unnamed give the same answers
+            import warnings as _w
+            for lin in sorted({lo, 0, 1, (sz or 1) - 1, sz or 0}):
+                with _w.catch_warnings():
+                    _w.simplefilter('ignore')
+                    a = attempt(ems.wind_index, lin, grid_kind=enums[kname])
+                    b = attempt(ems.unravel_index, lin, enums[kname])
+                    same = a == b or (a[0] == b[0] == 'err')
+                    if same and enums[kname] == ems.default_grid_kind:
+                        c = attempt(ems.wind_index, lin)
+                        same = a == c or (a[0] == c[0] == 'err')
+                if not same:
+                    bad = bad or f'unravel_index / wind_index without a grid kind disagree with wind_index({lin}, {kname}): {a} vs {b}'
             if sz is not None and lo <= 0 and lo + n >= sz and len(seen) != sz:
                 bad = bad or f'grid_size {sz} but {len(seen)} distinct native indexes'
             prev = None
